@@ -1,12 +1,13 @@
 (* smgen.CTransitionTableModel: what the generators iterate over.
      states / events / actions / guards : first-appearance order (OrderedDict keys), absent spellings skipped;
        for states a row contributes its start state and then its next state;
-     actionsignatures : OrderedDict keyed by the STRING CONCATENATION action+event, first insertion wins,
-       value (action, event)  -- so (OnA,BEvent) and (OnAB,Event) share a key;
+     actionsignatures : OrderedDict keyed by the PAIR (action, event), first insertion wins, value (action, event)
+       (it was keyed by the string concatenation action+event before the fix: commit, see Props/C09.v);
      transitionsperstate : OrderedDict state -> OrderedDict event -> list of transitions, i.e. the start states in
-       first-appearance order, per state its events in first-appearance order, per (state,event) the rows in table
-       order.  It is written here as dedup/filter (equal to the dictionary construction on tables whose start state
-       and event are present, which smgen needs anyway: it raises KeyError otherwise);
+       first-appearance order FOLLOWED BY the states that are only targets (in the order of [states], with no
+       events), per state its events in first-appearance order, per (state,event) the rows in table order.  It is
+       written here as dedup/filter (equal to the dictionary construction on tables whose start state and event are
+       present, which smgen needs anyway: it raises KeyError otherwise);
      getfirststate : transition_table[0][0]. *)
 From Coq Require Import String Ascii List Bool Arith.
 From KV Require Import Lib.TableDef.
@@ -27,17 +28,33 @@ Definition events (t : table) : list string := dedup (present (map r_ev t)).
 Definition actions (t : table) : list string := dedup (present (map r_act t)).
 Definition guards (t : table) : list string := dedup (present (map r_guard t)).
 
-Fixpoint dedup_key (l : list (string * (string * string))) : list (string * (string * string)) :=
+Definition pair_eqb (a b : string * string) : bool := String.eqb (fst a) (fst b) && String.eqb (snd a) (snd b).
+
+Fixpoint dedup_pair (l : list (string * string)) : list (string * string) :=
   match l with
   | [] => []
-  | kv :: r => kv :: filter (fun kv' => negb (String.eqb (fst kv') (fst kv))) (dedup_key r)
+  | x :: r => x :: filter (fun y => negb (pair_eqb y x)) (dedup_pair r)
   end.
 
-Definition actionsignatures (t : table) : list (string * (string * string)) :=
-  dedup_key (map (fun r => ((r_act r ++ r_ev r)%string, (r_act r, r_ev r)))
-                 (filter (fun r => negb (is_none (r_act r))) t)).
+(* the values of actionsignatures, in order: (action, event) *)
+Definition actionsignatures (t : table) : list (string * string) :=
+  dedup_pair (map (fun r => (r_act r, r_ev r)) (filter (fun r => negb (is_none (r_act r))) t)).
+
+(* the same with the key that was used before the fix: the concatenated string (kept to state what was wrong) *)
+Fixpoint dedup_concat (l : list (string * string)) : list (string * string) :=
+  match l with
+  | [] => []
+  | x :: r => x :: filter (fun y => negb (String.eqb (fst y ++ snd y) (fst x ++ snd x))) (dedup_concat r)
+  end.
+Definition actionsignatures_concat (t : table) : list (string * string) :=
+  dedup_concat (map (fun r => (r_act r, r_ev r)) (filter (fun r => negb (is_none (r_act r))) t)).
 
 Definition src_states (t : table) : list string := dedup (present (map r_src t)).
+Fixpoint mem (x : string) (l : list string) : bool :=
+  match l with [] => false | y :: r => String.eqb x y || mem x r end.
+(* keys of transitionsperstate *)
+Definition tps_states (t : table) : list string :=
+  (src_states t ++ filter (fun s => negb (mem s (src_states t))) (states t))%list.
 Definition events_of (t : table) (s : string) : list string :=
   dedup (present (map r_ev (filter (fun r => String.eqb (r_src r) s) t))).
 Definition trans_of (t : table) (s e : string) : list row := rows_for t s e.
@@ -61,8 +78,6 @@ Definition ident_or_none (s : string) : bool := is_none s || ident_ok s.
 Definition row_ok (r : row) : bool :=
   ident_ok (r_src r) && ident_ok (r_ev r) && ident_or_none (r_next r) && ident_or_none (r_act r) && ident_or_none (r_guard r).
 
-Fixpoint mem (x : string) (l : list string) : bool :=
-  match l with [] => false | y :: r => String.eqb x y || mem x r end.
 Definition disjoint (a b : list string) : bool := forallb (fun x => negb (mem x b)) a.
 
 Definition wf_table (t : table) : bool :=
